@@ -163,10 +163,14 @@ def pick_oids(rng, db, k):
     return out
 
 
+BIG_LISTS = [31, 32, 33, 40, 64, 65, 100, 129, 200, 300]
+
+
 def random_op(rng, db):
     name = rng.choice(["multiget", "get", "multigetnext", "getnext", "multiset", "set", "bulkget"])
+    big = rng.random() < 0.04  # long OID lists: chunking / batching thresholds
     if name in ("multiget", "multigetnext"):
-        return name, {"oids": pick_oids(rng, db, rng.randint(1, 8))}
+        return name, {"oids": pick_oids(rng, db, rng.choice(BIG_LISTS) if big else rng.randint(1, 8))}
     if name in ("get", "getnext"):
         return name, {"oid": pick_oids(rng, db, 1)[0]}
     if name == "multiset":
@@ -174,10 +178,15 @@ def random_op(rng, db):
         for o in pick_oids(rng, db, rng.randint(1, 5)):
             if o not in oids:
                 oids.append(o)
+        if big:
+            oids += [[1, 3, 6, 1, 4, 77, k] for k in range(rng.choice(BIG_LISTS))]
         return name, {"vbs": [[o, rng.choice([v for v in ALL_VALUES if v[0] != "null" or True])] for o in oids]}
     if name == "set":
         return name, {"vb": [pick_oids(rng, db, 1)[0], rng.choice(ALL_VALUES)]}
+    if big:
+        return name, {"scalars": pick_oids(rng, db, rng.choice([0, 3, 40])), "reps": pick_oids(rng, db, rng.choice([1, 2, 35])), "max": rng.choice([1, 3, 50, 120])}
     return name, {"scalars": pick_oids(rng, db, rng.randint(0, 3)), "reps": pick_oids(rng, db, rng.randint(0, 3)), "max": rng.randint(0, 4)}
 
 
-PROTOS = [("v1", "noauth"), ("v2c", "noauth"), ("v3", "noauth"), ("v3", "auth"), ("v3", "authpriv"), ("v3", "auth-sha1")]
+# "authpriv-pad": the agent pads the encrypted scoped PDU to 8-octet blocks, as DES does (RFC 3414 8.1.1.2)
+PROTOS = [("v1", "noauth"), ("v2c", "noauth"), ("v3", "noauth"), ("v3", "auth"), ("v3", "authpriv"), ("v3", "auth-sha1"), ("v3", "authpriv-pad")]
